@@ -35,6 +35,9 @@ type Spec struct {
 	Settings string            // initial contents of settings.json ("" = none)
 	// Concurrency > 1: web requests are issued by that many client goroutines.
 	Concurrency int
+	// OSWriter: output files are written by pprof itself into the session directory (instead of
+	// being captured by a Writer plug-in)
+	OSWriter bool
 }
 
 // Segment is what one interactive line / one request produced.
@@ -130,20 +133,21 @@ func FileBytes(s string) []byte {
 	return []byte(s)
 }
 
-func listFiles(dir string, seen map[string]bool) map[string]string {
+func listFiles(dir string, seen map[string]string) map[string]string {
 	out := map[string]string{}
 	filepath.Walk(dir, func(path string, info os.FileInfo, err error) error {
 		if err != nil || info.IsDir() || strings.Contains(path, "/seg/") || strings.Contains(path, "/config/") {
 			return nil
 		}
-		if seen[path] {
-			return nil
-		}
-		seen[path] = true
 		b, _ := os.ReadFile(path)
 		if len(b) > 1<<16 {
 			b = b[:1<<16]
 		}
+		stamp := fmt.Sprint(info.ModTime().UnixNano(), ":", info.Size(), ":") + string(b)
+		if old, ok := seen[path]; ok && old == stamp {
+			return nil // neither new nor written since it was last listed
+		}
+		seen[path] = stamp
 		rel, _ := filepath.Rel(dir, path)
 		out[rel] = FileText(b)
 		return nil
@@ -190,7 +194,7 @@ func Child(args []string) int {
 	}
 	segDir := filepath.Join(spec.Dir, "seg")
 	os.MkdirAll(segDir, 0o755)
-	seenFiles := map[string]bool{}
+	seenFiles := map[string]string{}
 	switch spec.Mode {
 	case "interactive":
 		ui := &drv.UI{Lines: spec.Lines}
@@ -246,7 +250,7 @@ func Child(args []string) int {
 			}
 		}
 		_ = gran
-		s := &drv.Session{Flags: &drv.Flags{Bools: bools, Strs: strs, Args: []string{"p"}}, Fetch: fetch, UI: ui, Writer: w}
+		s := &drv.Session{Flags: &drv.Flags{Bools: bools, Strs: strs, Args: []string{"p"}}, Fetch: fetch, UI: ui, Writer: w, OSWriter: spec.OSWriter}
 		r := s.Run()
 		os.Stdout = realStdout
 		if r.Err != nil {
